@@ -694,7 +694,7 @@ def check(run):
         run_keys(run, ukeys[i:i + 600], False)
     # 2b. sessions: several keys per process (shared names / tonics / scale objects), re-configuration,
     #     tonal patterns over key progressions with rests
-    run_sessions(run, info, 72 if run.tier == "quick" else 1000)
+    run_sessions(run, info, 60 if run.tier == "quick" else 1000)
     # 3. note names: whole MIDI range and every spelling
     numbers = list(range(-2, 130))
     sp = []
